@@ -137,6 +137,18 @@ class DB:
 
     # ------------------------------------------------------------------
     def _index(self, m):
+        # `lineno` becomes the position in the normal form (pre-order): after unfolding, a statement that came from a helper keeps
+        # the helper's source line, which says nothing about where it now stands.  The source line is kept in `_srcline` for reports.
+        counter = [0]
+
+        def number(node):
+            counter[0] += 1
+            if hasattr(node, "lineno"):
+                node._srcline = node.lineno
+                node.lineno = counter[0]
+            for child in ast.iter_child_nodes(node):
+                number(child)
+        number(m.tree)
         for node in ast.walk(m.tree):
             for child in ast.iter_child_nodes(node):
                 child._parent = node
@@ -260,7 +272,7 @@ class DB:
             fq = getattr(node, "_qual", "?")
         else:
             fq = getattr(f, "_qual", "<module>") if f is not None else "<module>"
-        return "%s:%s (%s)" % (m.relpath if m else "?", getattr(node, "lineno", "?"), fq)
+        return "%s:%s (%s)" % (m.relpath if m else "?", getattr(node, "_srcline", getattr(node, "lineno", "?")), fq)
 
     def module_assign(self, modname, name):
         """value node of a module-level `name = ...`"""
